@@ -54,6 +54,7 @@ MAP = [
  ("default successor or an initial phase", ["C10"]),
  ("parentheses of nested sums and products", ["C01", "C03"]),
  ("add the terms of a sum differently", ["C01"]),
+ ("2-norm of the entries for values of any rank", ["C03"]),
 ]
 def main():
     log = subprocess.run(["git", "-C", "/repo", "log", "--reverse", "--format=%h %s"],
